@@ -171,9 +171,11 @@ int main(void)
 
 #ifdef OP_ACCEPT
 /* a new client arrives: both legs of the new pair are set up without ever blocking the (single) event loop */
+static int g_fatal_calls;
+static void the_fatal(void *d) { (void)d; g_fatal_calls++; }       /* xcmrelay's main() exits the process here */
 int main(void)
 {
-    struct rserver *srv = rserver_create("s", NULL, NULL, "c", NULL, NULL, NULL, NULL);
+    struct rserver *srv = rserver_create("s", NULL, NULL, "c", NULL, the_fatal, NULL, NULL);
     CHECK(srv != NULL && g_server_nonblocking, "C20: the relay's server socket is non-blocking");
     g_accept_ok = nd_bool(); g_connect_ok = nd_bool(); g_set_blocking_fail = false;
     rserver_accept(12, EV_READ, srv);
@@ -182,6 +184,7 @@ int main(void)
 	if (g_connect_ok) { CHECK(rserver_num_relays(srv) == 1 && g_ev_add == 4, "C20: the new pair is relayed in both directions"); WITNESS(1, "pair established"); }
 	else CHECK(g_close_calls == 1 && g_closed[0] == SRC && rserver_num_relays(srv) == 0, "C20: if the target cannot be reached the accepted client is closed, other relays are untouched");
     } else CHECK(g_connect_calls == 0 && g_close_calls == 0, "C20: nothing to do without a pending client");
+    CHECK(g_fatal_calls == 0, "C20: trouble with ONE client or its target (nothing to accept, target unreachable) is never fatal to the relay: the pairs already being relayed go on");
     return 0;
 }
 #endif
